@@ -110,6 +110,11 @@ class Interp:
                 if di < 0:
                     raise ShapeError(f'{fn.name}: missing argument {p}')
                 env[p] = self.ev(defaults[di], {})
+        if fn.args.vararg is not None:
+            env[fn.args.vararg.arg] = tuple(args[len(params):])
+        if fn.args.kwarg is not None:
+            named = set(params) | {a.arg for a in fn.args.kwonlyargs}
+            env[fn.args.kwarg.arg] = {k: v for k, v in (kwargs or {}).items() if k not in named}
         for a, d in zip(fn.args.kwonlyargs, fn.args.kw_defaults):
             env[a.arg] = (kwargs or {}).get(a.arg, self.ev(d, {}) if d is not None else None)
         try:
@@ -554,5 +559,7 @@ class Interp:
                             break
                     else:
                         raise
+            elif isinstance(st, (ast.Import, ast.ImportFrom)):
+                pass            # a local import: the names it brings are supplied by the caller (overrides / globals)
             else:
                 raise ShapeError(f'statement kind {type(st).__name__} not read')
